@@ -236,7 +236,12 @@ def run(ctx):
                               {'line': line, 'formatted': text})
         # dict and pickle: lossless
         try:
-            s3 = Source.from_dict(s.to_dict())
+            d_ = s.to_dict()
+            s3 = Source.from_dict(d_)
+            s3 = Source.from_dict(d_)          # the same dictionary serves again (kept by the caller, e.g. stored as JSON-like state)
+            d2_ = s3.to_dict()                 # ... and dictionary -> source -> dictionary gives the dictionary back
+            if sorted(d2_) != sorted(d_) or sorted(d_) != ['error', 'flux', 'name', 'valid', 'x', 'y']:
+                ctx.violation('roundtrip:dict-lossy', 'dictionary -> source -> dictionary does not give the dictionary back', {'line': line, 'keys_before': sorted(d_), 'keys_after': sorted(d2_)})
             ctx.event('roundtrip:dict')
             s4 = pickle.loads(pickle.dumps(s, 2))
             ctx.event('roundtrip:pickle')
